@@ -209,3 +209,8 @@ package api
 //@   params recv ctx param
 //@   ensures probeCalls == old(probeCalls) + 1 && lastDescribePartition == param
 //@   modifies probeCalls, lastDescribePartition
+
+// the task-message bookkeeping behind api.ReplicateMeta (implemented and verified in core/meta)
+//@ trusted func (ReplicateMeta).RemoveTaskMsg
+//@   params recv ctx taskID msgID
+//@   modifies storeDom, storeVal
